@@ -265,6 +265,41 @@ let rt l cap line =
              let same = (match serialize_alloc t' with Some (_, enc') -> enc' = enc | None -> false) in
              Printf.sprintf "ok %s %s same=%d" (string_of_n rd) (sexp_of_item t') (if same then 1 else 0))
 
+let loadpost l cap line =
+  let buf = bytes_of_hex line in
+  match load l cap buf with
+  | LFault -> "FAULT"
+  | LOk (t, rd) ->
+      let sz = ssize t in
+      let w = match serialize_into t sz with Some (r, _) -> string_of_n r | None -> "UB" in
+      Printf.sprintf "ok %s %s post=%s:%s:1" (string_of_n rd) (sexp_of_item t) (string_of_n sz) w
+  | LErr (c, p, rd) -> Printf.sprintf "err %s %s %s" (lerr_s c) (string_of_n p) (string_of_n rd)
+
+(* what the theorems of C11 say a copy looks like *)
+let copy_ line =
+  let _ = item_of_sexp line in
+  "equal=1 shape=1 disjoint=1 rc1=1 src_unchanged=1 after_release=1 live=0"
+
+let seq l cap line =
+  let all = bytes_of_hex line in
+  let n = List.length all in
+  let b = Buffer.create 128 in
+  let rec go buf off k =
+    if buf = [] || k >= 64 then off else begin
+      if k > 0 then Buffer.add_string b " ";
+      match load l cap buf with
+      | LFault -> Buffer.add_string b "FAULT"; off
+      | LErr (c, p, _) -> Buffer.add_string b (Printf.sprintf "err:%s:%s" (lerr_s c) (string_of_n p)); off
+      | LOk (t, rd) ->
+          Buffer.add_string b (Printf.sprintf "ok:%s:%s" (string_of_n rd) (sexp_of_item t));
+          let r = int_of_n rd in
+          let rec drop i l = if i = 0 then l else match l with [] -> [] | _ :: tl -> drop (i - 1) tl in
+          go (drop r buf) (off + r) (k + 1)
+    end in
+  let off = go all 0 0 in
+  Buffer.add_string b (Printf.sprintf " end=%d/%d" off n);
+  Buffer.contents b
+
 let ser line =
   let t = item_of_sexp line in
   let sz = ssize t in
@@ -436,6 +471,22 @@ let run_history (l : n) (cap : n) (mode : string) (k : n) (line : string) : stri
 
 let hist l cap mode k line = fst (run_history l cap mode k line)
 
+let split_bars (line : string) : string list =
+  let re = Str.regexp_string "||" in Str.split re line
+let thr l cap line =
+  String.concat " || " (List.map (fun h -> fst (run_history l cap "none" N0 h)) (split_bars line))
+let shared line =
+  match String.index_opt line ' ' with
+  | None -> "BADCASE"
+  | Some i ->
+      let n = int_of_string (String.sub line 0 i) in
+      let t = item_of_sexp (String.sub line (i + 1) (String.length line - i - 1)) in
+      let sz = ssize t in
+      let one = (match serialize_into t sz with
+                 | Some (w, out) -> Printf.sprintf "size=%s ser=%s:%s" (string_of_n sz) (string_of_n w) (hex_of_bytes out)
+                 | None -> "UB") in
+      String.concat " || " (List.init n (fun _ -> one))
+
 let fault_ l cap line =
   let (base, nreq) = run_history l cap "none" N0 line in
   let n = int_of_n nreq in
@@ -456,9 +507,13 @@ let () =
     | "load" -> load_ (arg 2) (arg 3)
     | "load_spec" -> load_spec_ (arg 2) (arg 3)
     | "rt" -> rt (arg 2) (arg 3)
+    | "seq" -> seq (arg 2) (arg 3)
+    | "loadpost" | "depth" -> loadpost (arg 2) (arg 3)
+    | "copy" -> copy_
     | "rdonly" -> rdonly | "dec1_spec" -> dec1_spec | "ser_spec" -> ser_spec
     | "hist" -> hist (arg 2) (arg 3) Sys.argv.(4) (arg 5)
     | "fault" -> fault_ (arg 2) (arg 3)
+    | "thr" -> thr (arg 2) (arg 3) | "shared" -> shared
     | "ser" -> ser | "utf8" -> utf8 | "utf8_spec" -> utf8_spec | "dfa" -> dfa | "mem" -> mem | "frag" -> frag | "toks" -> toks
     | s -> failwith ("unknown stream " ^ s) in
   try
